@@ -31,6 +31,7 @@ THEOREMS = [
     "JanetModel.Props.C01.mark_eq_reachable_impl",
     "JanetModel.Props.C01.markSites_as_modelled",
     "JanetModel.Props.C01.gen_facts",
+    "JanetModel.Props.C01.mark_typed_calls_acyclic",
 ]
 H = os.path.join(VERIF, "harness/C01")
 SOURCES = [os.path.join(H, x) for x in ("gch.c", "w_ev.c", "w_net.c", "w_os.c", "w_filewatch.c")]
@@ -54,7 +55,8 @@ def sanitizer_report(err):
 class Job:
     """one execution of the harness"""
 
-    def __init__(self, prog, variant, sched, seed=1, graph=False, crit=False, dump=0, cwd=None, timeout=600, args=()):
+    def __init__(self, prog, variant, sched, seed=1, graph=False, crit=False, dump=0, cwd=None, timeout=600, args=(), stack_kb=0):
+        self.stack_kb = stack_kb
         self.prog, self.variant, self.sched, self.seed = prog, variant, sched, seed
         self.graph, self.crit, self.dump, self.cwd, self.timeout, self.args = graph, crit, dump, cwd, timeout, tuple(args)
 
@@ -73,7 +75,10 @@ def run_job(exes, job, tmp):
     if job.dump:
         dp = tempfile.mktemp(prefix="dump", dir=tmp)
         env.update(C01_DUMP=dp, C01_DUMP_EVERY=str(job.dump[0]), C01_DUMP_OFF=str(job.dump[1]), C01_DUMP_MAX=str(job.dump[2]))
-    rc, out, err = run_cmd([exes[job.variant], job.prog] + list(job.args), timeout=job.timeout, cwd=job.cwd, env=env)
+    cmd = [exes[job.variant], job.prog] + list(job.args)
+    if job.stack_kb:
+        cmd = ["prlimit", "--stack=%d" % (job.stack_kb * 1024)] + cmd
+    rc, out, err = run_cmd(cmd, timeout=job.timeout, cwd=job.cwd, env=env)
     rep = ""
     if os.path.exists(rp):
         with open(rp, errors="replace") as f:
@@ -103,7 +108,7 @@ def parse_report(rep):
 
 
 def scenario_meta(path):
-    need, opt, scheds, observes = [], [], None, False
+    need, opt, scheds, observes, stack = [], [], None, False, 0
     with open(path) as f:
         for line in f:
             if not line.startswith("#"):
@@ -116,7 +121,10 @@ def scenario_meta(path):
                 scheds = m.group(1).split()
             if "observes-gc" in line:
                 observes = True
-    return need, opt, scheds, observes
+            m = re.match(r"#\s*stack-kb:\s*(\d+)", line)
+            if m:
+                stack = int(m.group(1))
+    return need, opt, scheds, observes, stack
 
 
 def run(ctx, only_replay=None):
@@ -171,17 +179,17 @@ def _run(ctx, quick, broken, exes, driver, tmp, gen_info, only_replay):
     # ---- catalogue + minimised past failures
     scen = sorted(glob.glob(os.path.join(EDGES, "*.janet"))) + sorted(glob.glob(os.path.join(VERIF, "corpus/C01/regress/*.janet")))
     for p in scen:
-        need, opt, scheds, observes = scenario_meta(p)
+        need, opt, scheds, observes, stack = scenario_meta(p)
         g = "scenario:" + os.path.basename(p)
         groups[g] = dict(prog=p, kind="scenario", need=need, opt=opt, observes=observes)
         beh = scheds or ["never", "always", "p16"]
-        jobs.append((g, Job(p, "plain", "never", graph=True, crit=True, dump=(1, 0, 1))))
+        jobs.append((g, Job(p, "plain", "never", graph=True, crit=True, dump=(1, 0, 1), stack_kb=stack)))
         for s in beh[1:]:
-            jobs.append((g, Job(p, "plain", s, seed=rng.next() % 10**9, graph=True, dump=(rng.range(2, 40), rng.below(40), 1))))
+            jobs.append((g, Job(p, "plain", s, seed=rng.next() % 10**9, graph=True, dump=(rng.range(2, 40), rng.below(40), 1), stack_kb=stack)))
         if not observes:
             for v in ("asan", "asan_debugstack"):
                 for s in beh:
-                    jobs.append((g, Job(p, v, s, seed=rng.next() % 10**9)))
+                    jobs.append((g, Job(p, v, s, seed=rng.next() % 10**9, stack_kb=stack * 3)))
     # ---- generated programs
     n_small, n_large = (40, 30) if quick else (1200, 800)
     light = bool(os.environ.get("C01_LIGHT"))   # development aid (mutation runs): catalogue + a few programs only
@@ -245,6 +253,7 @@ def _run(ctx, quick, broken, exes, driver, tmp, gen_info, only_replay):
     for i, (g, job) in enumerate(jobs):
         per_group.setdefault(g, []).append(results[i])
     sched_hist = {}
+    flaky = []
     for g, rs in per_group.items():
         info = groups[g]
         ref = None
@@ -273,7 +282,7 @@ def _run(ctx, quick, broken, exes, driver, tmp, gen_info, only_replay):
                 ctx.violation("hang:" + g.split(":")[0], dict(replay, timeout=job.timeout), what="execution did not finish within %d s (%s %s %s)" % (job.timeout, g, job.variant, job.sched))
                 continue
             if r["rc"] < 0 or sanitizer_report(r["err"]):
-                ctx.violation("memory:" + g.split(":")[0], dict(replay, rc=r["rc"], stderr=r["err"].decode(errors="replace")[-6000:]),
+                ctx.violation("memory:" + (g if info["kind"] != "gen" else "gen"), dict(replay, rc=r["rc"], stderr=r["err"].decode(errors="replace")[-6000:]),
                               what="crash / sanitizer report under schedule %s (%s, %s): %s" % (job.sched, g, job.variant, r["err"].decode(errors="replace")[:300].replace("\n", " | ")))
                 continue
             if info.get("observes"):
@@ -283,7 +292,14 @@ def _run(ctx, quick, broken, exes, driver, tmp, gen_info, only_replay):
                 ref = (job, obs)
             elif obs != ref[1]:
                 what = "stdout" if obs[1] != ref[1][1] else ("stderr" if obs[2] != ref[1][2] else "exit status")
-                ctx.violation("behaviour:" + g.split(":")[0], dict(replay, reference=dict(variant=ref[0].variant, schedule=ref[0].sched, rc=ref[1][0], stdout=ref[1][1].decode(errors="replace")[-4000:], stderr=ref[1][2].decode(errors="replace")[-2000:]),
+                # exclude flakiness: both runs are repeated once; only a repeated difference counts
+                again = run_job(exes, job, tmp)
+                again_ref = run_job(exes, ref[0], tmp)
+                if again["rc"] is not None and again_ref["rc"] is not None and \
+                        (again["rc"], canon(again["out"]), canon(again["err"])) == (again_ref["rc"], canon(again_ref["out"]), canon(again_ref["err"])):
+                    flaky.append("%s %s/%s" % (g, job.variant, job.sched))
+                    continue
+                ctx.violation("behaviour:" + (g if info["kind"] != "gen" else "gen"), dict(replay, reference=dict(variant=ref[0].variant, schedule=ref[0].sched, rc=ref[1][0], stdout=ref[1][1].decode(errors="replace")[-4000:], stderr=ref[1][2].decode(errors="replace")[-2000:]),
                                                                   observed=dict(rc=obs[0], stdout=obs[1].decode(errors="replace")[-4000:], stderr=obs[2].decode(errors="replace")[-2000:])),
                               what="%s differs between schedule %s/%s and %s/%s for %s" % (what, ref[0].variant, ref[0].sched, job.variant, job.sched, g))
         # catalogue non-vacuity: the scenario really makes something reachable only through its edge kind
@@ -337,6 +353,7 @@ def _run(ctx, quick, broken, exes, driver, tmp, gen_info, only_replay):
         "collections_with_unknown_abstract_gcmark": tot["opaque_collections"],
         "edge_labels_seen": dict(sorted(label_edges.items())), "edge_labels_exclusive_max": dict(sorted(crit_seen.items())),
         "schedule_variant_histogram": sched_hist, "generated_statement_kinds": dict(sorted(kinds.items())),
+        "differences_not_reproduced_on_rerun": flaky,
         "model_dumps_checked": model_checked, "model_dump_diffs": model_diffs, "model_stats": model_stats,
         "scenarios": len(scen), "generated_programs": n_small + n_large, "suites": len(suites), "translator": gen_info,
     }
@@ -369,7 +386,9 @@ def replay(ctx, path):
             cwd = ctx.build.tree
         outs = []
         for sched in ("never", r["schedule"]):
-            res = run_job(exes, Job(p, r["variant"], sched, seed=r.get("schedule_seed", 1), graph=(r["variant"] == "plain"), cwd=cwd), tmp)
+            stack = scenario_meta(p)[4] if os.path.exists(p) else 0
+            res = run_job(exes, Job(p, r["variant"], sched, seed=r.get("schedule_seed", 1), graph=(r["variant"] == "plain"), cwd=cwd,
+                                    stack_kb=stack * (1 if r["variant"] == "plain" else 3)), tmp)
             findings = parse_report(res["rep"])[0]
             print("---- schedule %s: rc=%s findings=%d" % (sched, res["rc"], len(findings)))
             print(res["out"].decode(errors="replace")[-1500:])
